@@ -28,7 +28,7 @@ INVARIANTS = ["RoundTrip", "FilterFresh", "MmseBound", "ScaleLaw", "ColumnScaleL
 ACTIONS = ["SetChannel", "Encode", "Transmit", "SetNoiseVar", "Decode", "Query", "Rejected", "Filters", "EncodeBadLength"]
 PROPERTIES = ["QueryIsPure", "RejectedChangesNothing"]       # frame conditions (action properties)
 DEVS = ["SvdNeedsSquare", "SinrCoherentInterference", "NvNoneKeepsFilter", "QuerySetsNoiseVar", "RejectedKeepsEffect",
-        "GmdAbsoluteTol", "GmdTieBreaks"]
+        "GmdAbsoluteTol", "GmdTieBreaks", "ZfShortcutNearUnitary"]
 # channel k is handed to the implementation as 10^SCALES[k % 8] * H (gain sweep 1e-7 .. 1e7, half of the channels at unit gain)
 SCALES = [0, -7, 0, 7, 0, -4, 0, 3]
 CG_EVERY = 7           # channels with k % 7 = 3 (Blast / SVD / GMD, Nt >= 2) get column gains 10^-(0,2,4,1,3,..): ill conditioned
@@ -150,11 +150,19 @@ def gain(rec):
     return 10.0 ** rec.get("sc", 0)
 
 
+def has_cg(rec):
+    return bool(rec.get("cg")) and any(c != rec.get("cgl", 1) for c in rec["cg"])
+
+
+def col_gains(rec):
+    """column gains cg[j] / cgl: 10^-e_j (ill conditioned) or 1 + n_j 2^-18 (near-isometry)"""
+    return np.array(rec["cg"], dtype=float) / float(rec.get("cgl", 1))
+
+
 def chan_arg(rec):
     H = gain(rec) * imat(rec["H"])
-    cg = rec.get("cg")
-    if cg and any(cg):
-        H = H * (10.0 ** (-np.array(cg, dtype=float)))[np.newaxis, :]       # H D: column gains
+    if has_cg(rec):
+        H = H * col_gains(rec)[np.newaxis, :]       # H D: column gains
     if rec["form"] == "1d":
         return (H[:, 0].copy() if rec["sch"] == "mrc" else H[0, :].copy()), H
     return H.copy(), H
@@ -188,7 +196,7 @@ class Bench:
             else:
                 o.set_noise_var(0.0)
         self.objs[sch] = o
-        self.prev[sch] = {"H": rec["H"], "form": rec["form"], "sch": sch, "k": rec["k"], "q": q or 0, "sc": rec.get("sc", 0), "cg": rec.get("cg")}
+        self.prev[sch] = {"H": rec["H"], "form": rec["form"], "sch": sch, "k": rec["k"], "q": q or 0, "sc": rec.get("sc", 0), "cg": rec.get("cg"), "cgl": rec.get("cgl", 1)}
         out["hist"] = hist
         return o, H
 
@@ -230,7 +238,7 @@ class Bench:
                 pass
             o.set_channel_matrix(arg)
             out["hist"] = prev
-        self.prev[sch] = {"H": rec["H"], "form": rec["form"], "sch": sch, "k": rec["k"], "q": 0, "sc": rec.get("sc", 0), "cg": rec.get("cg")}
+        self.prev[sch] = {"H": rec["H"], "form": rec["form"], "sch": sch, "k": rec["k"], "q": 0, "sc": rec.get("sc", 0), "cg": rec.get("cg"), "cgl": rec.get("cgl", 1)}
         return o, H
 
     def preload(self, hist):
@@ -381,7 +389,7 @@ def eval_link(rec, bench, res):
     sch, nr, nt = rec["sch"], rec["nr"], rec["nt"]
     steps = rec["steps"]
     gn = gain(rec)           # noise variances are given as gn^2 / q: decoded blocks and SINRs do not depend on the gain
-    tag = f"{sch} {nr}x{nt} k={rec['k']} gain=1e{rec.get('sc', 0)}{' isometry' if rec.get('iso') else ''}{' colgain' if rec.get('cg') and any(rec['cg']) else ''} history={[st['a'] for st in steps]}"
+    tag = f"{sch} {nr}x{nt} k={rec['k']} gain=1e{rec.get('sc', 0)}{' isometry' if rec.get('iso') else ''}{' colgain' if has_cg(rec) else ''} history={[st['a'] for st in steps]}"
     g = Guard(res, tag, rec["k"] + len(steps))
     okc, r = call(res, "configure", bench.link_obj, rec, res.extra, g)
     if not okc:
@@ -497,7 +505,7 @@ def eval_filters(rec, bench, res):
     flt = rec["flt"]
     cls, mimo = classes()
     gn = gain(rec)           # observed filters are compared after multiplication with the gain (ZF(gH) = ZF(H)/g)
-    tag = f"{sch} {nr}x{nt} k={rec['k']} gain=1e{rec.get('sc', 0)}{' isometry' if rec.get('iso') else ''}{' colgain' if rec.get('cg') and any(rec['cg']) else ''}"
+    tag = f"{sch} {nr}x{nt} k={rec['k']} gain=1e{rec.get('sc', 0)}{' isometry' if rec.get('iso') else ''}{' colgain' if has_cg(rec) else ''}"
     lin = getattr(mimo, "calc_post_processing_linear_SINRs", None)
     dbf = getattr(mimo, "calc_post_processing_SINRs", None)
     if flt["kind"] == "blast":
@@ -627,7 +635,7 @@ def eval_filters(rec, bench, res):
                   f"{tag}: ZfLeftInverseOnEquivalentChannel fails: F Heq != sqrt(Nt) I")
         if flt.get("zfx"):      # exact side of the column-gain law: ZF(H D) = D^-1 ZF(H)
             zf = imat(flt["zfx"]["num"]) / flt["zfx"]["den"]
-            dcol = 10.0 ** (-np.array(rec["cg"], dtype=float))
+            dcol = col_gains(rec)
             res.check(close(gn * dcol[:, np.newaxis] * G0 / rt, zf),
                       f"{tag}: ColumnScaleLaw fails: zero-forcing filter of H D differs from D^-1 (H^H H)^-1 H^H")
         nG0 = float(np.linalg.norm(G0))
@@ -804,7 +812,9 @@ def model_jobs(ctx):
             "RejectedKeepsEffect": (("RejectedChangesNothing", "RoundTrip"), ["alamouti", "mrt"], [(1, 2), (2, 2)], 2, 2),
             # a well conditioned channel handed over with gain 1e-7; a scaled isometry (k = ISO_EVERY)
             "GmdAbsoluteTol": (("RoundTrip",), ["gmd"], [(2, 2)], 2, 2),
-            "GmdTieBreaks": (("RoundTrip",), ["gmd"], [(2, 2)], ISO_EVERY, 2)}
+            "GmdTieBreaks": (("RoundTrip",), ["gmd"], [(2, 2)], ISO_EVERY, 2),
+            # a near-isometry (orthogonal columns, gains 1 + n 2^-18): the zero-forcing filter is not H^H
+            "ZfShortcutNearUnitary": (("RoundTrip",), ["blast"], [(2, 2)], 2 * ISO_EVERY, 2)}
 
     def dev_run(dev):
         inv, schemes, shapes, khi, deep = want[dev]
